@@ -312,11 +312,21 @@ func c15NewCluster(backend string, nodes int, st *c15Stats) (*c15Cluster, error)
 }
 
 // c15YieldHook perturbs the interleaving at every storage operation.
-func c15YieldHook(r *mrand.Rand) vk.Hook {
+// c15Faults configures storage-fault injection in the gate hook: an injected fault makes
+// the operation return vk.ErrInjected WITHOUT being applied.
+type c15Faults struct {
+	perMille int       // base rate on SetNX / Set / Exists / Delete of marker keys
+	live     *sync.Map // marker keys of ids that are currently held (rate x4 there)
+	injected atomic.Int64
+	onLive   atomic.Int64
+}
+
+func c15YieldHook(r *mrand.Rand, f *c15Faults) vk.Hook {
 	var mu sync.Mutex
-	return func(_, _, _ string) error {
+	return func(_, op, key string) error {
 		mu.Lock()
 		x := r.Intn(1000)
+		y := r.Intn(1000)
 		mu.Unlock()
 		switch {
 		case x < 550:
@@ -329,8 +339,32 @@ func c15YieldHook(r *mrand.Rand) vk.Hook {
 		default:
 			time.Sleep(time.Duration(5+x%40) * time.Microsecond)
 		}
+		if f == nil || f.perMille == 0 || !strings.HasPrefix(key, "tunnox:id:used:") {
+			return nil
+		}
+		switch op {
+		case "SetNX", "Set", "Exists", "Delete":
+		default:
+			return nil
+		}
+		rate := f.perMille
+		_, held := f.live.Load(key)
+		if held && op != "Delete" {
+			rate *= 4
+		}
+		if y < rate {
+			f.injected.Add(1)
+			if held {
+				f.onLive.Add(1)
+			}
+			return vk.ErrInjected
+		}
 		return nil
 	}
+}
+
+func c15Injected(err error) bool {
+	return err != nil && strings.Contains(err.Error(), vk.ErrInjected.Error())
 }
 
 // ---------------------------------------------------------------- history
@@ -473,6 +507,7 @@ type c15Case struct {
 	Seed    string `json:"preseed"` // none | some | all-but-one | all
 	RelPct  int    `json:"release_pct"`
 	MaxOwn  int    `json:"max_owned"`
+	Fault   int    `json:"storage_fault_per_mille"`
 	Sub     int64  `json:"subseed"`
 }
 
@@ -490,6 +525,7 @@ type c15Env struct {
 	// ids that "exist in the database" for GenerateUniqueClientID's check function
 	dbTaken map[int64]bool
 	seeded  map[string]bool // kind:id
+	live    sync.Map        // marker key -> held (only steers fault injection)
 	stop    atomic.Bool
 }
 
@@ -539,6 +575,7 @@ func (e *c15Env) generate(n, th, k int, via string) (id string, ok bool) {
 	}
 	op.OK, op.ID = true, id
 	e.hist.add(op)
+	e.live.Store(kd.keyPrefix+":"+id, true)
 	e.run.Count("generate_ok", 1)
 	if e.seeded[kd.name+":"+id] {
 		e.run.Violation(fmt.Sprintf("C15:preseeded-id-handed-out|backend=%s", e.cs.Backend),
@@ -552,9 +589,13 @@ func (e *c15Env) generate(n, th, k int, via string) (id string, ok bool) {
 	return id, true
 }
 
-func (e *c15Env) release(n, th int, o c15Owned) {
+// release performs one Release and records it. It returns false when the Release
+// failed with an injected fault: such an operation was not applied, creates no
+// obligation, is left out of the history, and the caller still owns the id.
+func (e *c15Env) release(n, th int, o c15Owned) (released bool) {
 	kd := c15Kinds[o.kind]
 	op := c15Op{Kind: kd.name, ID: o.id, Gen: false, Node: n, Thread: th}
+	released = true
 	defer func() {
 		if p := recover(); p != nil {
 			op.Ret = e.hist.now()
@@ -563,9 +604,15 @@ func (e *c15Env) release(n, th int, o c15Owned) {
 			e.run.Violation(fmt.Sprintf("C15:panic|op=release|backend=%s", e.cs.Backend), map[string]any{"case": e.cs, "op": op})
 		}
 	}()
+	e.live.Delete(kd.keyPrefix + ":" + o.id)
 	op.Call = e.hist.now()
 	err := kd.rel(e.mgrs[n], o.id)
 	op.Ret = e.hist.now()
+	if c15Injected(err) {
+		e.live.Store(kd.keyPrefix+":"+o.id, true)
+		e.run.Count("release_failed_injected", 1)
+		return false
+	}
 	if err != nil {
 		op.Err = err.Error()
 		e.run.Count("release_failed", 1)
@@ -574,6 +621,7 @@ func (e *c15Env) release(n, th int, o c15Owned) {
 		e.run.Count("release_ok", 1)
 	}
 	e.hist.add(op)
+	return true
 }
 
 // c15RunCase executes one case; false = watchdog fired (inconclusive).
@@ -634,7 +682,12 @@ func c15RunCase(t *testing.T, run *vk.Run, ent *c15Entropy, cs c15Case, fam *c15
 		}
 	}
 	ent.rd.setForce(-1)
-	cl.setHook(c15YieldHook(mrand.New(mrand.NewSource(cs.Sub ^ 0x1e1d))))
+	faults := &c15Faults{perMille: cs.Fault, live: &e.live}
+	cl.setHook(c15YieldHook(mrand.New(mrand.NewSource(cs.Sub^0x1e1d)), faults))
+	defer func() {
+		run.Count("faults_injected", faults.injected.Load())
+		run.Count("faults_injected_on_held_id", faults.onLive.Load())
+	}()
 
 	nthreads := cs.G * cs.Threads
 	owned := make([][]c15Owned, nthreads)
@@ -664,8 +717,9 @@ func c15RunCase(t *testing.T, run *vk.Run, ent *c15Entropy, cs c15Case, fam *c15
 				if len(owned[w]) > 0 && (len(owned[w]) >= cs.MaxOwn || rr.Intn(100) < cs.RelPct) {
 					j := rr.Intn(len(owned[w]))
 					o := owned[w][j]
-					owned[w] = append(owned[w][:j], owned[w][j+1:]...)
-					e.release(n, th, o)
+					if e.release(n, th, o) {
+						owned[w] = append(owned[w][:j], owned[w][j+1:]...)
+					}
 					continue
 				}
 				k := rr.Intn(len(c15Kinds))
@@ -732,10 +786,17 @@ func c15RunCase(t *testing.T, run *vk.Run, ent *c15Entropy, cs c15Case, fam *c15
 		})
 		// ---- phase 4: release everything, then ids must be obtainable again
 		parallel(func(n, th, w int) {
+			var kept []c15Owned
 			for _, o := range owned[w] {
-				e.release(n, th, o)
+				ok := false
+				for try := 0; try < 6 && !ok; try++ {
+					ok = e.release(n, th, o)
+				}
+				if !ok {
+					kept = append(kept, o)
+				}
 			}
-			owned[w] = nil
+			owned[w] = kept
 		})
 		parallel(func(n, th, w int) {
 			k := rands[w].Intn(len(c15Kinds))
@@ -791,7 +852,7 @@ func TestVerifC15Cluster(t *testing.T) {
 	vk.Quiet()
 	run := vk.Start(t, "C15", "idgen-cluster")
 	defer run.Finish()
-	run.Rule("case = (backend in memory/redis(miniredis)/hybrid+shared redis/hybrid local/no-SetNX double, K in {1,2,4,16,64} candidate ids per kind via a K-pattern crypto/rand.Reader, G in {1,2,4} IDManager nodes x 4 goroutines, pre-seed pattern none/some/all-but-one/all, release ratio); phases: seed via real Generate, mixed Generate/Release with random yields at every storage op, fill to saturation, saturated probes, release all, regenerate; distinct = (backend,K,G,preseed)")
+	run.Rule("case = (backend in memory/redis(miniredis)/hybrid+shared redis/hybrid local/no-SetNX double, K in {1,2,4,16,64} candidate ids per kind via a K-pattern crypto/rand.Reader, G in {1,2,4} IDManager nodes x 4 goroutines, pre-seed pattern none/some/all-but-one/all, release ratio); phases: seed via real Generate, mixed Generate/Release with random yields at every storage op and (2 of 3 cases) storage faults injected before SetNX/Set/Exists/Delete of marker keys at 0.5-4% (x4 on SetNX/Exists of a currently held id), fill to saturation, saturated probes, release all, regenerate; distinct = (backend,K,G,preseed,faults on/off)")
 	ent := c15InstallEntropy(t, run)
 	r := run.Rand("cases")
 	reps := run.Pick(3, 30)
@@ -816,6 +877,9 @@ func TestVerifC15Cluster(t *testing.T) {
 				}
 				caseNo++
 				cs := c15Case{Backend: be, K: k, G: g, Threads: 4, Seed: seeds[r.Intn(len(seeds))], RelPct: 25 + r.Intn(40), Sub: r.Int63()}
+				if rep%3 != 0 {
+					cs.Fault = []int{5, 15, 40}[r.Intn(3)]
+				}
 				cs.Ops = 400 / (cs.G * cs.Threads)
 				cs.MaxOwn = 1 + r.Intn(1+4*k/(cs.G*cs.Threads)+1)
 				if k == 1 && cs.Seed == "all-but-one" {
@@ -828,7 +892,7 @@ func TestVerifC15Cluster(t *testing.T) {
 					aborted = true // a stuck case may still hold goroutines on the shared reader
 				}
 				run.Eval(1)
-				run.Distinct(fmt.Sprintf("%s|K=%d|G=%d|%s", be, k, g, cs.Seed))
+				run.Distinct(fmt.Sprintf("%s|K=%d|G=%d|%s|faults=%v", be, k, g, cs.Seed, cs.Fault > 0))
 				run.Sample(cs)
 				run.Count("cases_"+be, 1)
 			}
@@ -850,6 +914,8 @@ func TestVerifC15Cluster(t *testing.T) {
 	run.Floor("refused_while_saturated", 10)
 	run.Floor("regenerated_after_release", 10)
 	run.Floor("preseeded_markers", 10)
+	run.Floor("faults_injected", 200)
+	run.Floor("faults_injected_on_held_id", 50)
 }
 
 // TestVerifC15Sched drives small scenarios under the cooperative scheduler: one
@@ -860,7 +926,7 @@ func TestVerifC15Sched(t *testing.T) {
 	vk.Quiet()
 	run := vk.Start(t, "C15", "idgen-sched")
 	defer run.Finish()
-	run.Rule("scenario = (K, threads, script of Generate/Release per thread, each thread with its own StorageIDGenerator on one gated memory store); schedules: exhaustive with <=2 preemptions (small scripts) and seeded random choice at every storage operation (scripts with exhaustion); distinct = schedule fingerprint")
+	run.Rule("scenario = (K, threads, script of Generate/Release per thread, each thread with its own StorageIDGenerator on one gated memory store); some scenarios with storage faults injected before SetNX/Delete; schedules: exhaustive with <=2 preemptions (small scripts) and seeded random choice at every storage operation (scripts with exhaustion); distinct = schedule fingerprint")
 	ent := c15InstallEntropy(t, run)
 	fam := &c15Stats{}
 	r := run.Rand("sched")
@@ -871,6 +937,7 @@ func TestVerifC15Sched(t *testing.T) {
 		k       int
 		scripts []string // per thread: g = generate, r = release oldest owned
 		seedAll bool
+		fault   int // per mille of SetNX/Delete calls that fail (injected before the operation is applied)
 	}
 	check := func(sc scen, h *c15Hist, trace []string, mode string) {
 		ops := h.ops
@@ -936,6 +1003,12 @@ func TestVerifC15Sched(t *testing.T) {
 						op := c15Op{Kind: "user", ID: id, Node: ti, Call: h.now()}
 						err := gen.Release(id)
 						op.Ret = h.now()
+						if c15Injected(err) {
+							// not applied: no obligation, the thread still owns the id
+							own = append([]string{id}, own...)
+							run.Count("release_failed_injected", 1)
+							continue
+						}
 						op.OK = err == nil
 						h.add(op)
 						run.Count("release_ok", 1)
@@ -946,12 +1019,26 @@ func TestVerifC15Sched(t *testing.T) {
 		return cancelCtx
 	}
 
+	schedHook := func(s *vk.Sched, sc scen, sub int64) vk.Hook {
+		fr := mrand.New(mrand.NewSource(sub ^ 0xfa17))
+		return func(tier, op, key string) error {
+			s.Yield(tier + "." + op + ":" + key)
+			if sc.fault > 0 && (op == "SetNX" || op == "Delete") && fr.Intn(1000) < sc.fault {
+				run.Count("faults_injected", 1)
+				return vk.ErrInjected
+			}
+			return nil
+		}
+	}
+
 	// (a) exhaustive, <= 2 preemptions
 	small := []scen{
 		{name: "2x(g r g) K=2", k: 2, scripts: []string{"grg", "grg"}},
 		{name: "2x(g g) K=4", k: 4, scripts: []string{"gg", "gg"}},
 		{name: "3x(g) K=4", k: 4, scripts: []string{"g", "g", "g"}},
 		{name: "g r g | g K=2", k: 2, scripts: []string{"grg", "g"}},
+		{name: "g r g | g K=2 faults 25%", k: 2, scripts: []string{"grg", "g"}, fault: 250},
+		{name: "g g | g K=4 faults 30%", k: 4, scripts: []string{"gg", "g"}, fault: 300},
 	}
 	perScen := run.Pick(150, 3000)
 	complete := true
@@ -964,7 +1051,7 @@ func TestVerifC15Sched(t *testing.T) {
 		st := vk.Explore(2, perScen, 4000, func(s *vk.Sched) func(ok bool) {
 			h = &c15Hist{}
 			cur = s
-			cancel = build(sc, sub, func(g *vk.Gated) { g.SetHook(vk.SchedHook(s)) }, h, s.Go)
+			cancel = build(sc, sub, func(g *vk.Gated) { g.SetHook(schedHook(s, sc, sub)) }, h, s.Go)
 			return func(ok bool) {
 				defer cancel()
 				run.Eval(1)
@@ -994,15 +1081,18 @@ func TestVerifC15Sched(t *testing.T) {
 		{name: "3x(g g r g) K=2", k: 2, scripts: []string{"ggrg", "ggrg", "ggrg"}},
 		{name: "4x(g r g g) K=4", k: 4, scripts: []string{"grgg", "grgg", "ggrg", "gg"}},
 		{name: "2x(g g) K=2 all pre-seeded", k: 2, scripts: []string{"gg", "gg"}, seedAll: true},
+		{name: "3x(g g r g) K=2 faults 5%", k: 2, scripts: []string{"ggrg", "ggrg", "ggrg"}, fault: 50},
+		{name: "4x(g r g g) K=4 faults 10%", k: 4, scripts: []string{"grgg", "grgg", "ggrg", "gg"}, fault: 100},
+		{name: "2x(g g) K=2 all pre-seeded faults 5%", k: 2, scripts: []string{"gg", "gg"}, seedAll: true, fault: 50},
 	}
-	n := run.Pick(24, 600)
+	n := run.Pick(35, 700)
 	for i := 0; i < n; i++ {
 		sc := big[i%len(big)]
 		sub := r.Int63()
 		run.Case("sched-random|"+sc.name, map[string]any{"scenario": sc, "sub": sub})
 		h := &c15Hist{}
 		s := vk.NewSched(vk.RandomChooser{R: mrand.New(mrand.NewSource(sub))})
-		cancel := build(sc, sub, func(g *vk.Gated) { g.SetHook(vk.SchedHook(s)) }, h, s.Go)
+		cancel := build(sc, sub, func(g *vk.Gated) { g.SetHook(schedHook(s, sc, sub)) }, h, s.Go)
 		ok := s.Run(20000)
 		s.Stop()
 		run.Eval(1)
@@ -1031,6 +1121,7 @@ func TestVerifC15Sched(t *testing.T) {
 	run.Floor("collisions", 1000)
 	run.Floor("exhausted", 1)
 	run.Floor("schedules_with_preemption", 20)
+	run.Floor("faults_injected", 50)
 }
 
 // TestVerifC15UUID: connection / mapping-instance / tunnel ids come from UUIDv7 and
